@@ -16,6 +16,17 @@ TIME_CONDS = {
 PART_FILTERS = {'none': None, 'eq': 't.g = 1', 'in': 't.g IN (1, 2)'}
 
 
+# how the conjuncts of WHERE are written: order and grouping of `time condition`, `partition filter` (and a repeated partition filter)
+LAYOUTS = {
+    'flat': lambda t, p: ' AND '.join(x for x in (t, p) if x),
+    'part-first': lambda t, p: ' AND '.join(x for x in (p, t) if x),
+    'time-in-right-group': lambda t, p: '%s AND (%s AND %s)' % (p, p, t),
+    'time-in-left-group': lambda t, p: '(%s AND %s) AND %s' % (t, p, p),
+    'time-first-in-right-group': lambda t, p: '%s AND (%s AND %s)' % (p, t, p),
+    'parenthesised': lambda t, p: '(%s) AND (%s)' % (t, p),
+}
+
+
 def members():
     for tc in TIME_CONDS:
         for pf in PART_FILTERS:
@@ -25,15 +36,26 @@ def members():
                         if pf != 'none' and ng == 0:
                             continue     # a filter on g is only allowed when g is a partition column
                         yield (tc, pf, ng, model_left, limit)
+    # the same conditions written in other orders / groupings (the meaning of a conjunction does not depend on either)
+    for tc in TIME_CONDS:
+        if tc == 'none':
+            continue
+        for pf in ('eq', 'in'):
+            for layout in LAYOUTS:
+                if layout == 'flat':
+                    continue
+                for ng in (1, 2):
+                    yield (tc, pf, ng, False, layout == 'part-first', layout)
 
 
 def sql_of(m):
-    tc, pf, ng, model_left, limit = m
-    conds = [c for c in (TIME_CONDS[tc], PART_FILTERS[pf]) if c]
+    tc, pf, ng, model_left, limit = m[:5]
+    layout = m[5] if len(m) > 5 else 'flat'
     frm = 'mindsdb.tspred AS m JOIN int1.tbl AS t' if model_left else 'int1.tbl AS t JOIN mindsdb.tspred AS m'
     sql = 'SELECT * FROM %s' % frm
-    if conds:
-        sql += ' WHERE ' + ' AND '.join(conds)
+    where = LAYOUTS[layout](TIME_CONDS[tc], PART_FILTERS[pf])
+    if where:
+        sql += ' WHERE ' + where
     if limit:
         sql += ' LIMIT 2'
     return sql
@@ -88,7 +110,7 @@ interpret.assumptions = []
 
 def spec_relation(db, m, w, c, c2):
     """the rows the property statement says the model must receive (as a relation over the table's rows)"""
-    tc, pf, ng, model_left, limit = m
+    tc, pf, ng, model_left, limit = m[:5]
     n, rows = db.tables['tbl']
     G, G2, TS, V = 0, 1, 2, 3
 
@@ -157,7 +179,7 @@ def check_member(m, R, D, timeout_ms=120000):
     """-> dict(status=discharged|counterexample|rejected|unsupported|inconclusive, ...)"""
     from mindsdb_sql.planner import steps as S
     from mindsdb_sql.exceptions import PlanningException
-    tc, pf, ng, model_left, limit = m
+    tc, pf, ng, model_left, limit = m[:5]
     sql = sql_of(m)
     info = {'sql': sql, 'member': list(m)}
     try:
@@ -173,6 +195,8 @@ def check_member(m, R, D, timeout_ms=120000):
     # structural claims: output filter = the user's time condition, LIMIT after the join
     want_filter = TIME_CONDS[tc]
     got_filter = ' '.join(str(ap.output_time_filter).split()).lower() if ap.output_time_filter is not None else None
+    if got_filter is not None and got_filter.startswith('(') and got_filter.endswith(')') and len(m) > 5:
+        got_filter = got_filter[1:-1]       # the user's own parentheses around the condition
     if (want_filter is None) != (got_filter is None) or (want_filter and got_filter.replace('t.', '') != want_filter.lower().replace('t.', '')):
         problems.append('output_time_filter %r, the user wrote %r' % (got_filter, want_filter))
     joins = [i for i, s in enumerate(plan.steps) if isinstance(s, S.JoinStep)]
@@ -232,7 +256,7 @@ def check_member(m, R, D, timeout_ms=120000):
 def replay_witness(m, witness):
     import sqlite3, re
     from mindsdb_sql.planner import steps as S
-    tc, pf, ng, model_left, limit = m
+    tc, pf, ng, model_left, limit = m[:5]
     wv, cv, c2v = witness['window'], witness['c'], witness['c2']
     kw = catalog(ng)
     kw['predictor_metadata'][0]['window'] = wv
@@ -314,7 +338,7 @@ def validate_member(m, R, D, rnd):
     """translator validation: on a random concrete table (no ties within a partition), the symbolic interpreter of the plan
     fixed to that table must give the rows that sqlite3 gives when it executes the plan's own queries"""
     from mindsdb_sql.planner import steps as S
-    tc, pf, ng, model_left, limit = m
+    tc, pf, ng, model_left, limit = m[:5]
     # random table without time ties inside a partition
     for _ in range(20):
         n = rnd.randint(0, R)
